@@ -7,7 +7,9 @@ GEN  call alphabet = entry point (preprocess_str, parse_sv_str strict / incomple
      entry points sv_parser / lib_parser / pp_parser on a PERSISTENT buffer whose text pointer never
      changes) x input class (accepted, rejected by the preprocessor, rejected deep inside a description,
      recursion limit hit, unclosed `begin_keywords "1364-2001", `resetall first, malformed directive, library text);
-     all histories up to the tier's length followed by every probe.
+     all histories up to the tier's length followed by every probe.  Argument-varying family: inputs with
+     `include / `ifdef whose result depends on include paths, caller defines and flags; every (entry, input,
+     arguments) probe after calls on the same inputs with OTHER arguments.
 TV   Api_Trace kind "hist": probe after the history (same thread) = probe on a fresh thread.  The thread
      state snapshots between calls are recorded as evidence of non-vacuity only.
 """
@@ -43,6 +45,34 @@ INPUTS = {
     "lib_kw": "library logic *.v, rtl/top.sv;\ninclude x.map;\n",      # a library map whose library name is reserved in 1800 but not in 1364
     "big": "module v; " + " ".join("wire w%d;" % i for i in range(400)) + " endmodule\n",
 }
+# inputs whose result depends on the OTHER arguments of the call (include paths, caller defines, flags): a history
+# that resolved the same include name through another path, or ran with other defines / flags, must not show
+# (round-6 seeded change: a thread-local memo of resolved include names, cleared by the file entry point only)
+ENV_FILES = {"d1/h.svh": "`define H wire a1;\n", "d2/h.svh": "`define H wire b2;\nwire from_d2;\n", "d1/only1.svh": "wire only1;\n",
+             "d2/sub/n.svh": "wire n2;\n", "d1/sub/n.svh": "wire n1;\n"}
+ENV_INPUTS = {
+    "inc_h": "`include \"h.svh\"\nmodule m; `H endmodule\n",
+    "inc_only1": "module m;\n`include \"only1.svh\"\nendmodule\n",
+    "inc_sub": "module m;\n`include \"sub/n.svh\"\nendmodule // c\n",
+    "ifdef_k": "`ifdef K\nmodule k1; /* c */ endmodule\n`else\nmodule k0; endmodule\n`endif\n`ifdef L\nwire `L;\n`endif\n",
+}
+ENV_ARGS = [
+    {"incdirs": ["d1"]}, {"incdirs": ["d2"]}, {"incdirs": []}, {"incdirs": ["d2", "d1"]}, {"incdirs": ["d1", "d2"]},
+    {"incdirs": ["d1"], "defines": [{"name": "K", "none": True}]},
+    {"incdirs": ["d2"], "defines": [{"name": "L", "body": "lw", "args": []}], "strip_comments": True},
+    {"incdirs": ["d1"], "ignore_include": True},
+]
+ENV_ENTRIES = ["preprocess_str", "parse_sv_str", "parse_sv_str_inc", "parse_lib_str"]
+
+
+def env_call(entry, inp, args):
+    c = {"fn": entry.replace("_inc", ""), "path": "t.sv", "text": ENV_INPUTS[inp], "state": True}
+    if entry.endswith("_inc"):
+        c["allow_incomplete"] = True
+    c.update(args)
+    return c
+
+
 ENTRIES = ["preprocess_str", "parse_sv_str", "parse_sv_str_inc", "parse_lib_str", "raw_sv", "raw_lib", "raw_pp", "raw_sv_incomplete", "raw_lib_incomplete"]
 
 
@@ -90,6 +120,22 @@ def run(tier, seed):
         for p in ps:
             cases.append({"id": len(cases), "calls": [call(*x) for x in h] + [call(*p)]})
             meta.append((h, p))
+    # argument-varying family: every (entry, input, arguments) probe after histories of one or two calls on the same
+    # inputs with OTHER arguments
+    eops = [(e, i, a) for e in ENV_ENTRIES for i in ENV_INPUTS for a in range(len(ENV_ARGS))]
+    ecases, emeta = [], []
+    for p in eops:
+        others = [o for o in eops if o[2] != p[2]]
+        same_in = [o for o in others if o[1] == p[1]]
+        hs = [(o,) for o in rng.sample(same_in, 3 if quick else 10)] + [tuple(rng.sample(others, 2)) for _ in range(1 if quick else 6)]
+        for h in hs:
+            ecases.append({"id": "e%d" % len(ecases), "files": ENV_FILES, "calls": [env_call(x[0], x[1], ENV_ARGS[x[2]]) for x in h + (p,)]})
+            emeta.append((h, p))
+    efresh_cases = [{"id": "ef%d" % i, "files": ENV_FILES, "calls": [env_call(p[0], p[1], ENV_ARGS[p[2]])]} for i, p in enumerate(eops)]
+    eres = vlib.run_cases(ecases, tag="c07e", limit_ms=120000)
+    efres = vlib.run_cases(efresh_cases, tag="c07ef")
+    efresh = {p: tree.result_summary(r["results"][0]) for p, r in zip(eops, efres)}
+    erecs = [{"id": c["id"], "kind": "hist", "fresh": efresh[p], "after": tree.result_summary(r["results"][-1])} for c, r, (h, p) in zip(ecases, eres, emeta)]
     fresh_cases = [{"id": "f%d" % i, "calls": [call(*p)]} for i, p in enumerate(probes)]
     vlib.log("C07: %d histories x probes = %d cases" % (len(hists), len(cases)))
     res = vlib.run_cases(cases, tag="c07", limit_ms=120000)
@@ -103,9 +149,17 @@ def run(tier, seed):
         recs.append({"id": str(c["id"]), "kind": "hist", "fresh": fresh[p], "after": after})
         if any(x.get("state", {}).get("ver") or x.get("state", {}).get("dir") for x in rs[:-1]):
             residue += 1
-    bad, stats = vlib.tlc_validate("Api_Trace.tla", "Api_Trace.cfg", recs, tag="c07")
-    v.add_tv("Api_Trace[hist]", stats, len(recs))
+    bad, stats = vlib.tlc_validate("Api_Trace.tla", "Api_Trace.cfg", recs + erecs, tag="c07")
+    v.add_tv("Api_Trace[hist]", stats, len(recs) + len(erecs))
+    v.cov["argument_varying_cases"] = len(erecs)
+    v.cov["argument_varying_distinct_fresh_results"] = len({json.dumps(x, sort_keys=True) for x in efresh.values()})
     for rid, reasons in bad.items():
+        if rid.startswith("e"):
+            h, p = emeta[int(rid[1:])]
+            show = lambda x: [x[0], x[1], ENV_ARGS[x[2]]]
+            v.violation("history %s probe %s: %s" % ([show(x) for x in h], show(p), "; ".join(reasons)[:400]),
+                        {"files": ENV_FILES, "history": [show(x) for x in h], "probe": show(p), "inputs": ENV_INPUTS})
+            continue
         h, p = meta[int(rid)]
         v.violation("history %s probe %s: %s" % (list(h), p, "; ".join(reasons)[:400]), {"history": [list(x) for x in h], "probe": list(p), "inputs": {i: INPUTS[i] for i in {x[1] for x in h} | {p[1]}}})
     v.cov["evaluations"] = len(cases)
